@@ -105,7 +105,8 @@ def _make_float_literal(value: float) -> cst.BaseExpression:
     if math.isinf(value):
         literal = "'inf'" if value > 0 else "'-inf'"
         return cst.Call(func=cst.Name("float"), args=[cst.Arg(value=cst.SimpleString(literal))])
-    if value < 0:
+    # ``value < 0`` alone misses negative zero; ``cst.Float("-0.0")`` is not a valid token.
+    if value < 0 or (value == 0 and math.copysign(1.0, value) < 0):
         return cst.UnaryOperation(operator=cst.Minus(), expression=cst.Float(str(-value)))
     return cst.Float(str(value))
 
